@@ -434,7 +434,18 @@ def validate(ctx, module, trace, label, key_fields=None, group=1, jopts="", samp
     ctx.evaluations += ncases
     for ln in lines[:: max(1, len(lines) // 4000)]:
         pass
-    if distinct_key:
+    if group == "begin":
+        # distinct (case id, caller-visible outcome); the case id is in the Begin line, the outcome in the End line
+        cur_id = None
+        for ln in lines:
+            if '"ev":"Begin"' in ln:
+                m = re.search(r'"id":(\[[^\]]*\]|\d+)', ln)
+                cur_id = m.group(1) if m else str(len(ctx.distinct))
+            elif '"ev":"End"' in ln and cur_id is not None:
+                m = re.search(r'"kind":"([A-Za-z]*)".*"res":"([a-z]*)"', ln)
+                ctx.distinct.add((label.split("-")[0], cur_id, m.group(1) if m else "", m.group(2) if m else ""))
+                cur_id = None
+    elif distinct_key:
         for ln in lines:
             k = distinct_key(ln)
             if k is not None:
